@@ -39,8 +39,27 @@ def build_stream(rnd, cls):
         body = tmpl % nb[0] if b'%d' in tmpl else tmpl
         units.append(('content', 1, b''.join(DataSender(body)), body))
     units.append(('EHLO', 1, b'EHLO c.example\r\n'))
+    if cls == 'auth':
+        # AUTH exchanges: complete in one line, spread over continuation lines, broken off, malformed - each one unit of
+        # the stream (command line + continuation lines), and whatever follows is pipelined right behind it
+        import base64
+        b64 = lambda x: base64.b64encode(x)  # noqa
+        shapes = [(1, b'AUTH PLAIN ' + b64(b'\0user\0secret') + b'\r\n'),
+                  (1, b'AUTH PLAIN\r\n' + b64(b'\0user\0secret') + b'\r\n'),
+                  (1, b'AUTH LOGIN\r\n' + b64(b'user') + b'\r\n' + b64(b'secret') + b'\r\n'),
+                  (1, b'AUTH LOGIN ' + b64(b'user') + b'\r\n' + b64(b'secret') + b'\r\n'),
+                  (0, b'AUTH LOGIN\r\n*\r\n'), (0, b'AUTH LOGIN\r\n' + b64(b'user') + b'\r\n*\r\n'),
+                  (0, b'AUTH PLAIN\r\n!!!notbase64\r\n'), (0, b'AUTH BOGUSMECH abc\r\n'), (0, b'AUTH\r\n')]
+        authed = False
+        for _ in range(rnd.randint(1, 3)):
+            # (once authenticated, AUTH is refused at once and continuation lines would be commands: one-line shapes only)
+            wf, data = rnd.choice([x for x in shapes if x[1].count(b'\n') == 1] if authed else shapes)
+            authed = authed or wf == 1
+            units.append(('AUTH', wf, data))
+            if rnd.random() < 0.3:
+                units.append(('NOOP', 1, b'NOOP\r\n'))
     for k in range(rnd.randint(1, 3)):
-        transaction(cls if k == 0 or rnd.random() < 0.5 else 'plain')
+        transaction('plain' if cls == 'auth' else cls if k == 0 or rnd.random() < 0.5 else 'plain')
         r = rnd.random()
         if r < 0.3:
             units.append(('RSET', 1, b'RSET\r\n'))
@@ -50,6 +69,8 @@ def build_stream(rnd, cls):
             units.append(('UNKNOWN', 1, b'BOGUS\r\n'))
     units.append(('QUIT', 1, b'QUIT\r\n'))
     cfg = {'max_size': 100} if cls == 'oversize' else ({'max_size': 100000} if rnd.random() < 0.3 else {})
+    if cls == 'auth':
+        cfg['auth'] = [b'PLAIN', b'LOGIN']
     return units, cfg
 
 
@@ -70,6 +91,9 @@ def run(units, cfg, cuts):
     s = sdrv.Session(dict(cfg))
     s.ev.insert(0, {'t': 'cmd', 'kind': 'BANNER', 'wf': 1, 'addr': 0, 'content': 0, 'now': 1000})
     s.settle()
+    for u in units:          # the same address numbering in every run, whatever becomes of the lines that carry the addresses
+        if u[0] in ('MAIL', 'RCPT'):
+            s.aid(u[2][u[2].index(b'<') + 1:u[2].index(b'>')].decode())
     if cuts is None:        # reference: one unit at a time, with command metadata for the observer
         for u in units:
             if s.done:
@@ -104,13 +128,13 @@ def main():
     # the thorough list extends the quick one): the known finding D15 is identified by the fingerprint of each of its
     # bundles, so that any other way of depending on the segmentation is still reported.
     nover = 48 if quick else 400
-    work = [('seeded', it) for it in range(9 if quick else 190)] + [('fixed', j) for j in range(nover) if j % nshards == shard]
+    work = [('seeded', it) for it in range(12 if quick else 240)] + [('fixed', j) for j in range(nover) if j % nshards == shard]
     for kind_, it in work:
         if kind_ == 'fixed':
             cls = 'oversize'
             rnd_ = random.Random(424242 + it)
         else:
-            cls = ['plain', 'cmdlike', 'emptybody'][it % 3]
+            cls = ['plain', 'cmdlike', 'emptybody', 'auth'][it % 4]
             rnd_ = rnd
         units, cfg = build_stream(rnd_, cls)
         total = sum(len(u[2]) for u in units)
@@ -132,7 +156,7 @@ def main():
         stats['executions'] += 1
         stats['streams'] += 1
         nunits = len(units)
-        nfinal = sum(1 for e in ref if e['t'] == 'reply') - 1
+        nfinal = sum(1 for e in ref if e['t'] == 'reply' and e['code'] != 334) - 1
         ev = ref + [{'t': 'bundle', 'runs': runs, 'units_answered': nfinal == nunits or any(e['t'] == 'reply' and e['code'] in (421, 221) for e in ref)}]
         rec = {'id': shard + n * nshards, 'cls': cls, 'cfg': {'stall': 0, 'deadline': 0}, 'ev': ev}
         if kind_ == 'fixed':
